@@ -105,7 +105,7 @@ def build_scenario(n, lines_by_sig, proto, gzip, rnd, unit=UNIT, pad="rep", sign
     }
     if refuse:
         sc["refuse"] = refuse
-    if short_flush_ms:
+    if short_flush_ms is not None:
         sc["short_flush_ms"] = short_flush_ms
     return sc
 
@@ -151,7 +151,7 @@ def make_scenarios(ctx, lines):
         proto, gzip = TRANSPORTS[i % len(TRANSPORTS)]
         out.append(build_scenario(len(out), {SIGS[(i // 2) % 3]: rnd.choice(lines)}, proto, gzip, rnd,
                                   unit=BIG_UNIT, pad="rnd"))
-    # Flush with a timeout (400 ms) far below an outage: an earlier signal (flushed first: logs,
+    # Flush with a timeout (400 / 0 / 50 ms) far below an outage: an earlier signal (flushed first: logs,
     # then traces, then metrics) stalls three requests in a row (>= 3 x the request timeout), the
     # later configured signals are healthy or idle (no events at all).  The short flush may
     # return false; true is only right once everything emitted was acknowledged.
@@ -165,7 +165,8 @@ def make_scenarios(ctx, lines):
         if (i // 2) % 2 == 0:                                # the later signals also carry events
             for s in later:
                 ls[s] = dict(rnd.choice(by_limit[base["limit"]]), decs=[], reqs=[])
-        out.append(build_scenario(len(out), ls, proto, gzip, rnd, signals=[down] + later, short_flush_ms=400))
+        out.append(build_scenario(len(out), ls, proto, gzip, rnd, signals=[down] + later,
+                                  short_flush_ms=[400, 0, 50][i % 3]))
     # one signal's endpoint is down for a long time; the others must be delivered meanwhile
     for i in range(n_indep):
         proto, gzip = TRANSPORTS[i % len(TRANSPORTS)]
